@@ -177,6 +177,26 @@ def run_property(prop, tier, seed):
     notes = []
     crash = []
 
+    # 0. the executor against CPython on concrete inputs (translation validation)
+    xc = {"comparisons": 0, "disagreements": 0}
+    try:
+        import subprocess
+
+        env = dict(os.environ)
+        env["PYTHONPATH"] = HERE + os.pathsep + REPO
+        env.pop("PYVC_BYTES", None)
+        out = subprocess.run([sys.executable, "-m", "pyvc.crosscheck", REPO], capture_output=True, text=True, env=env, cwd=HERE, timeout=300)
+        first = out.stdout.strip().split("\n")[0] if out.stdout.strip() else ""
+        if first.startswith("crosscheck:"):
+            xc = {"comparisons": int(first.split()[1]), "disagreements": int(first.split()[3])}
+            if xc["disagreements"]:
+                notes.append("executor/CPython cross-check disagrees: " + out.stdout[-600:])
+                crash.append("pyvc executor disagrees with CPython on concrete inputs: " + out.stdout[-400:])
+        else:
+            notes.append("executor/CPython cross-check did not run on this tree: " + (out.stderr or out.stdout)[-300:])
+    except Exception as e:
+        notes.append("cross-check: %r" % (e,))
+
     # 1. deductive
     ded = deductive(prop, tier)
     deps = dep_hashes(ded) if ded else {}
@@ -295,6 +315,8 @@ def run_property(prop, tier, seed):
             "samples": (b["samples"] or [])[:3] + [o["id"] for r in list(ded.values())[:2] for o in r["obligations"][:2]],
             "exhaustive": False,
             "known_findings": known_lines,
+            "engine_crosscheck": xc,
+            "notes": notes,
         },
         "assumptions": ["%s: %s" % kv for kv in sorted(ASSUMPTIONS.items())],
         "wall_s": round(wall, 2),
